@@ -24,7 +24,7 @@ import z3
 
 from . import core
 from .core import Unsupported
-from .values import (SxInt, SxBool, SxBytes, SxStr, SxChar, Numeral, is_sym, any_sym, mkbool,
+from .values import (SxInt, SxBool, SxBytes, SxStr, SxChar, Numeral, is_sym, any_sym, mkbool, has_sym, eq_term,
                      z3bool, sym_ite, concretize_small, _mkstr, _mkbytes, _char_in, _items,
                      HEXLOW, HEXUP, str_of)
 
@@ -58,6 +58,35 @@ class Tx(ast.NodeTransformer):
             return n
         return ast.copy_location(
             ast.Call(func=ast.Name("__sx_getitem__", ast.Load()), args=[n.value, key], keywords=[]), n)
+
+    def visit_Assign(self, n):
+        self.generic_visit(n)
+        if len(n.targets) == 1 and isinstance(n.targets[0], ast.Subscript) and \
+                not isinstance(n.targets[0].slice, (ast.Slice, ast.Tuple)):
+            t = n.targets[0]
+            return ast.copy_location(ast.Expr(ast.Call(func=ast.Name("__sx_setitem__", ast.Load()),
+                                                       args=[t.value, t.slice, n.value], keywords=[])), n)
+        return n
+
+    def visit_AugAssign(self, n):
+        self.generic_visit(n)
+        if isinstance(n.target, ast.Subscript) and not isinstance(n.target.slice, (ast.Slice, ast.Tuple)) and \
+                isinstance(n.target.value, ast.Name) and isinstance(n.target.slice, (ast.Name, ast.Constant)):
+            t = n.target
+            cur = ast.Call(func=ast.Name("__sx_getitem__", ast.Load()), args=[t.value, t.slice], keywords=[])
+            val = ast.BinOp(left=cur, op=n.op, right=n.value)
+            return ast.copy_location(ast.Expr(ast.Call(func=ast.Name("__sx_setitem__", ast.Load()),
+                                                       args=[t.value, t.slice, val], keywords=[])), n)
+        return n
+
+    def visit_Delete(self, n):
+        self.generic_visit(n)
+        if len(n.targets) == 1 and isinstance(n.targets[0], ast.Subscript) and \
+                not isinstance(n.targets[0].slice, (ast.Slice, ast.Tuple)):
+            t = n.targets[0]
+            return ast.copy_location(ast.Expr(ast.Call(func=ast.Name("__sx_delitem__", ast.Load()),
+                                                       args=[t.value, t.slice], keywords=[])), n)
+        return n
 
     def visit_Compare(self, n):
         self.generic_visit(n)
@@ -120,6 +149,8 @@ def unregister(obj):
 
 
 def sx_len(x):
+    if isinstance(x, dict) and id(x) in _SIDE:
+        return len(x) + len(_SIDE[id(x)][1])
     return len(x)
 
 
@@ -176,6 +207,14 @@ def sx_int_from_bytes(b, byteorder="big", *, signed=False):
     sym = [x for x in bs if isinstance(x, SxInt)]
     if not sym:
         return int.from_bytes(bytes(bs), "big")
+    # bytes that are exactly x.to_bytes(len) of one integer x give x back (keeps its interval and
+    # avoids re-assembling the term from extracts)
+    o0 = getattr(bs[0], "org", None)
+    if o0 is not None and o0[2] == len(bs) and o0[1] == len(bs) - 1:
+        x = o0[0]
+        if all(isinstance(b, SxInt) and b.org is not None and b.org[0] is x and b.org[1] == len(bs) - 1 - j
+               for j, b in enumerate(bs)):
+            return x
     if sym[0].is_bv:
         parts = [x.ubits(8) if isinstance(x, SxInt) else z3.BitVecVal(x, 8) for x in bs]
         e = z3.Concat(*parts) if len(parts) > 1 else parts[0]
@@ -668,11 +707,8 @@ def __sx_call__(f, *a, **k):
                 if bool(v == a[0]):
                     return i
             raise ValueError("not in list")
-        elif isinstance(slf, dict) and name == "get" and a and is_sym(a[0]):
-            for kk, vv in slf.items():
-                if bool(a[0] == kk):
-                    return vv
-            return a[1] if len(a) > 1 else None
+        elif isinstance(slf, dict) and (id(slf) in _SIDE or (a and has_sym(a[0]))):
+            return _dict_method(slf, name, a, k)
         if any_sym(a, k) and not isinstance(slf, (list, dict, set)) and \
                 (slf is None or isinstance(slf, types.ModuleType) or isinstance(slf, type)):
             # unmodelled C function receiving symbolic data: realise (run becomes incomplete)
@@ -733,11 +769,226 @@ def _bytes_method(slf, name, a, k):
     raise Unsupported("bytes.%s with symbolic argument" % name)
 
 
+# ---- dictionaries (and memo caches) whose keys contain symbolic values -------------------------
+# A native dict cannot hash a symbolic key.  Entries with such keys live in a side list; every
+# lookup compares the wanted key with the stored ones through the solver (a fork per candidate),
+# which is exactly Python's "hash equal and ==" semantics for values that may or may not coincide.
+_SIDE = {}        # id(dict) -> (dict, [[key, value], ...])
+_MEMOS = []
+
+
+def _side(o, create=False):
+    ent = _SIDE.get(id(o))
+    if ent is None and create:
+        ent = _SIDE[id(o)] = (o, [])
+    return ent[1] if ent else None
+
+
+def _keq(a, b):
+    r = eq_term(a, b)
+    return r if isinstance(r, bool) else bool(SxBool(r))
+
+
+def _dict_find(o, k):
+    """-> ('native', key) | ('side', entry) | None"""
+    side = _side(o)
+    if not has_sym(k):
+        try:
+            if k in o:
+                return ("native", k)
+        except TypeError:
+            pass
+    else:
+        for nk in list(o.keys()):
+            if _keq(k, nk):
+                return ("native", nk)
+    if side:
+        for ent in side:
+            if _keq(k, ent[0]):
+                return ("side", ent)
+    return None
+
+
+def _dict_sym(o, k=None):
+    return isinstance(o, dict) and (has_sym(k) or id(o) in _SIDE)
+
+
+def __sx_setitem__(o, k, v):
+    if _dict_sym(o, k):
+        hit = _dict_find(o, k)
+        if hit is None:
+            if has_sym(k):
+                _side(o, True).append([k, v])
+            else:
+                o[k] = v
+        elif hit[0] == "native":
+            o[hit[1]] = v
+        else:
+            hit[1][1] = v
+        return
+    if isinstance(k, SxInt) and isinstance(o, list):
+        k = concretize_small(k, -len(o), len(o) - 1)
+    o[k] = v
+
+
+def __sx_delitem__(o, k):
+    if _dict_sym(o, k):
+        hit = _dict_find(o, k)
+        if hit is None:
+            raise KeyError("symbolic key")
+        if hit[0] == "native":
+            del o[hit[1]]
+        else:
+            _side(o).remove(hit[1])
+        return
+    del o[k]
+
+
+def _dict_get(o, k, default=None, strict=False):
+    hit = _dict_find(o, k)
+    if hit is None:
+        if strict:
+            raise KeyError("symbolic key")
+        return default
+    return o[hit[1]] if hit[0] == "native" else hit[1][1]
+
+
+def _dict_method(o, name, a, k):
+    side = _side(o) or []
+    if name == "get":
+        return _dict_get(o, *a)
+    if name == "setdefault":
+        hit = _dict_find(o, a[0])
+        if hit is None:
+            __sx_setitem__(o, a[0], a[1] if len(a) > 1 else None)
+            return a[1] if len(a) > 1 else None
+        return o[hit[1]] if hit[0] == "native" else hit[1][1]
+    if name == "pop":
+        hit = _dict_find(o, a[0])
+        if hit is None:
+            if len(a) > 1:
+                return a[1]
+            raise KeyError("symbolic key")
+        if hit[0] == "native":
+            return o.pop(hit[1])
+        _side(o).remove(hit[1])
+        return hit[1][1]
+    if name == "items":
+        return list(o.items()) + [(e[0], e[1]) for e in side]
+    if name == "keys":
+        return list(o.keys()) + [e[0] for e in side]
+    if name == "values":
+        return list(o.values()) + [e[1] for e in side]
+    if name == "clear":
+        o.clear()
+        del side[:]
+        return None
+    if name == "__contains__":
+        return _dict_find(o, a[0]) is not None
+    if name == "update":
+        other = a[0] if a else {}
+        for kk, vv in (other.items() if isinstance(other, dict) else other):
+            __sx_setitem__(o, kk, vv)
+        for kk, vv in k.items():
+            __sx_setitem__(o, kk, vv)
+        return None
+    raise Unsupported("dict.%s on a dictionary with symbolic keys" % name)
+
+
+def sx_lru_cache(maxsize=128, typed=False):
+    """functools.lru_cache / cache with symbolic-aware key comparison (unbounded)"""
+    if callable(maxsize) and not isinstance(maxsize, int):
+        return _memo(maxsize)
+    return _memo
+
+
+def _memo(fn):
+    import functools
+    store = {}
+    _MEMOS.append(store)
+
+    @functools.wraps(fn)
+    def wrapper(*a, **k):
+        key = (tuple(a), tuple(sorted(k.items())))
+        if _dict_sym(store, key):
+            hit = _dict_find(store, key)
+            if hit is not None:
+                return store[hit[1]] if hit[0] == "native" else hit[1][1]
+            v = fn(*a, **k)
+            __sx_setitem__(store, key, v)
+            return v
+        try:
+            if key in store:
+                return store[key]
+        except TypeError:
+            return fn(*a, **k)
+        v = store[key] = fn(*a, **k)
+        return v
+    wrapper.cache_clear = store.clear
+    wrapper.cache_info = lambda: None
+    wrapper.__wrapped__ = fn
+    return wrapper
+
+
+# ---- per-path reset of process-wide mutable state ---------------------------------------------
+_SNAP = []
+
+
+def snapshot_globals(modules):
+    """remember the contents of module-level / class-level containers of the repository so that
+    every explored path starts from the state a fresh process would have"""
+    del _SNAP[:]
+    seen = set()
+    for m in modules:
+        for name, v in list(vars(m).items()):
+            if name.startswith("__"):
+                continue
+            _snap_obj(v, seen)
+            if isinstance(v, type) and getattr(v, "__module__", None) == m.__name__:
+                for an, av in list(vars(v).items()):
+                    if not an.startswith("__"):
+                        _snap_obj(av, seen)
+
+
+def _snap_obj(v, seen):
+    if isinstance(v, (dict, list, set)) and id(v) not in seen:
+        seen.add(id(v))
+        import copy
+        _SNAP.append((v, copy.copy(v)))
+
+
+def reset_path_state():
+    _SIDE.clear()
+    for st in _MEMOS:
+        st.clear()
+    for obj, cp in _SNAP:
+        if isinstance(obj, dict):
+            if obj != cp or len(obj) != len(cp):
+                obj.clear()
+                obj.update(cp)
+        elif isinstance(obj, list):
+            if len(obj) != len(cp) or any(a is not b for a, b in zip(obj, cp)):
+                obj[:] = cp
+        else:
+            if obj != cp:
+                obj.clear()
+                obj.update(cp)
+
+
+core.PATH_HOOKS.append(reset_path_state)
+import functools as _functools
+register(_functools.lru_cache, sx_lru_cache)
+if hasattr(_functools, "cache"):
+    register(_functools.cache, _memo)
+
+
 def __sx_slice__(a, b, c):
     return slice(a, b, c)
 
 
 def __sx_getitem__(o, k):
+    if isinstance(o, dict) and (_SIDE or has_sym(k)) and _dict_sym(o, k):
+        return _dict_get(o, k, strict=True)
     if isinstance(k, SxInt):
         if isinstance(o, (SxBytes, SxStr, SxChar, SxReader)):
             return o[k]
@@ -822,6 +1073,8 @@ def _contains(item, cont):
                     return True
             return False
         return item in cont
+    if isinstance(cont, dict) and _dict_sym(cont, item):
+        return _dict_find(cont, item) is not None
     if isinstance(cont, (dict, type({}.keys()), type({}.values()))):
         if is_sym(item):
             for c in cont:
@@ -886,6 +1139,7 @@ def __sx_fstr__(*parts):
 
 
 HOOKS = dict(__sx_call__=__sx_call__, __sx_getitem__=__sx_getitem__, __sx_contains__=__sx_contains__,
+             __sx_setitem__=__sx_setitem__, __sx_delitem__=__sx_delitem__,
              __sx_ifexp__=__sx_ifexp__, __sx_slice__=__sx_slice__, __sx_fstr__=__sx_fstr__)
 
 
